@@ -4,16 +4,44 @@ use crate::{
 };
 use proc_macro2::Span;
 use quote::ToTokens;
-use std::collections::{HashMap, HashSet};
+use std::collections::HashSet;
 
 #[cfg(feature = "syn2")]
 use syn2 as syn;
 
 use syn::{spanned::Spanned, Result};
 
+/// Diagnostics in the order they were first reported. A repeated message keeps its place and takes the latest span.
+#[derive(Default)]
+struct Errors(Vec<(String, Span)>);
+
+impl Errors {
+    fn insert(&mut self, message: String, span: Span) {
+        match self.0.iter_mut().find(|(m, _)| *m == message) {
+            Some(entry) => entry.1 = span,
+            None => self.0.push((message, span)),
+        }
+    }
+
+    fn is_empty(&self) -> bool {
+        self.0.is_empty()
+    }
+}
+
+/// Distinct type paths in the order the trait instructions list them.
+fn unique_in_order<'a, I: Iterator<Item = &'a TypePath>>(type_paths: I) -> Vec<&'a TypePath> {
+    let mut unique: Vec<&TypePath> = vec![];
+    for tp in type_paths {
+        if !unique.contains(&tp) {
+            unique.push(tp);
+        }
+    }
+    unique
+}
+
 pub(crate) fn validate(input: &DataType) -> Result<()> {
     let attrs = input.get_attrs();
-    let mut errors: HashMap<String, Span> = HashMap::new();
+    let mut errors = Errors::default();
 
     if attrs.attrs.is_empty() {
         errors.insert("At least one trait instruction is expected.".into(), Span::call_site());
@@ -109,13 +137,13 @@ pub(crate) fn validate(input: &DataType) -> Result<()> {
     } else {
         let mut root_err = syn::Error::new(Span::call_site(), "Cannot expand o2o macro");
 
-        errors.iter().for_each(|(err, sp)| root_err.combine(syn::Error::new(*sp, err)));
+        errors.0.iter().for_each(|(err, sp)| root_err.combine(syn::Error::new(*sp, err)));
 
         Err(root_err)
     }
 }
 
-fn validate_error_instrs(input: &DataType, attrs: &DataTypeAttrs, errors: &mut HashMap<String, Span>) {
+fn validate_error_instrs(input: &DataType, attrs: &DataTypeAttrs, errors: &mut Errors) {
     let postfix = |own: bool| if !own { " To turn this message off, use #[o2o(allow_unknown)]" } else { "" };
 
     for err in &attrs.error_instrs {
@@ -132,7 +160,7 @@ fn validate_error_instrs(input: &DataType, attrs: &DataTypeAttrs, errors: &mut H
     }
 }
 
-fn validate_member_error_instrs(input: &DataType, attrs: &MemberAttrs, errors: &mut HashMap<String, Span>) {
+fn validate_member_error_instrs(input: &DataType, attrs: &MemberAttrs, errors: &mut Errors) {
     let postfix = |own: bool| if !own { " To turn this message off, use #[o2o(allow_unknown)]" } else { "" };
 
     for err in &attrs.error_instrs {
@@ -148,7 +176,7 @@ fn validate_member_error_instrs(input: &DataType, attrs: &MemberAttrs, errors: &
     }
 }
 
-fn validate_struct_attrs<'a, I: Iterator<Item = &'a TraitAttrCore>>(attrs: I, fallible: bool, errors: &mut HashMap<String, Span>) {
+fn validate_struct_attrs<'a, I: Iterator<Item = &'a TraitAttrCore>>(attrs: I, fallible: bool, errors: &mut Errors) {
     let mut unique_ident = HashSet::new();
     for attr in attrs {
         if !unique_ident.insert(&attr.ty) {
@@ -165,7 +193,7 @@ fn validate_struct_attrs<'a, I: Iterator<Item = &'a TraitAttrCore>>(attrs: I, fa
     }
 }
 
-fn validate_ghost_attrs(kind: &Kind, ghost_attrs: &[GhostsAttr], type_paths: &HashSet<&TypePath>, errors: &mut HashMap<String, Span>) {
+fn validate_ghost_attrs(kind: &Kind, ghost_attrs: &[GhostsAttr], type_paths: &HashSet<&TypePath>, errors: &mut Errors) {
     if ghost_attrs.iter().filter(|x| x.applicable_to[kind] && x.attr.container_ty.is_none()).count() > 1 {
         errors.insert("There can be at most one default #[ghosts(...)] instruction.".into(), Span::call_site());
     }
@@ -183,7 +211,7 @@ fn validate_ghost_attrs(kind: &Kind, ghost_attrs: &[GhostsAttr], type_paths: &Ha
     }
 }
 
-fn validate_child_parents_attrs(children_attrs: &[ChildParentsAttr], type_paths: &HashSet<&TypePath>, errors: &mut HashMap<String, Span>) {
+fn validate_child_parents_attrs(children_attrs: &[ChildParentsAttr], type_paths: &HashSet<&TypePath>, errors: &mut Errors) {
     if children_attrs.iter().filter(|x| x.container_ty.is_none()).count() > 1 {
         errors.insert("There can be at most one default #[child_parents(...)] instruction.".into(), Span::call_site());
     }
@@ -210,7 +238,7 @@ fn validate_child_parents_attrs(children_attrs: &[ChildParentsAttr], type_paths:
     }
 }
 
-fn validate_where_attrs(where_attrs: &[WhereAttr], type_paths: &HashSet<&TypePath>, errors: &mut HashMap<String, Span>) {
+fn validate_where_attrs(where_attrs: &[WhereAttr], type_paths: &HashSet<&TypePath>, errors: &mut Errors) {
     if where_attrs.iter().filter(|x| x.container_ty.is_none()).count() > 1 {
         errors.insert("There can be at most one default #[where_clause(...)] instruction.".into(), Span::call_site());
     }
@@ -229,13 +257,13 @@ fn validate_where_attrs(where_attrs: &[WhereAttr], type_paths: &HashSet<&TypePat
     }
 }
 
-fn bark_at_member_attr<T, U: Fn(&T) -> Span>(attrs: &Vec<T>, instr_name: &'static str, extract_span: U, errors: &mut HashMap<String, Span>) {
+fn bark_at_member_attr<T, U: Fn(&T) -> Span>(attrs: &Vec<T>, instr_name: &'static str, extract_span: U, errors: &mut Errors) {
     for attr in attrs {
         errors.insert(format!("Instruction #[{}(...)] is not supported for this member.", instr_name), extract_span(attr));
     }
 }
 
-fn validate_dedicated_member_attrs<T, U: Fn(&T) -> Option<&TypePath>>(attrs: &Vec<T>, extract_type_path: U, instr_name: Option<&'static str>, member_span: Span, type_paths: &HashSet<&TypePath>, errors: &mut HashMap<String, Span>) {
+fn validate_dedicated_member_attrs<T, U: Fn(&T) -> Option<&TypePath>>(attrs: &Vec<T>, extract_type_path: U, instr_name: Option<&'static str>, member_span: Span, type_paths: &HashSet<&TypePath>, errors: &mut Errors) {
     if let Some(inst_name) = instr_name {
         if attrs.iter().filter(|x| extract_type_path(x).is_none()).count() > 1 {
             errors.insert(format!("There can be at most one default #[{}(...)] instruction for a given member.", inst_name), member_span);
@@ -258,7 +286,7 @@ fn validate_dedicated_member_attrs<T, U: Fn(&T) -> Option<&TypePath>>(attrs: &Ve
     }
 }
 
-fn validate_parent_attrs(named_root_struct: bool, parent_attrs: &[ParentAttr], data_type_attrs_by_kind: &[(&TraitAttrCore, Kind)], errors: &mut HashMap<String, Span>) {
+fn validate_parent_attrs(named_root_struct: bool, parent_attrs: &[ParentAttr], data_type_attrs_by_kind: &[(&TraitAttrCore, Kind)], errors: &mut Errors) {
     for p in parent_attrs {
         for (attr, _) in data_type_attrs_by_kind.iter().filter(|(x, kind)| !kind.is_from() && (p.container_ty.is_none() || &x.ty == p.container_ty.as_ref().unwrap())) {
             if let Some(fields) = p.child_fields.as_ref() { fields.iter().for_each(|f| {
@@ -281,9 +309,9 @@ fn validate_parent_attrs(named_root_struct: bool, parent_attrs: &[ParentAttr], d
     }
 }
 
-fn validate_fields(input: &Struct, data_type_attrs: &DataTypeAttrs, data_type_attrs_by_kind: &[(&TraitAttrCore, Kind)], type_paths: &HashSet<&TypePath>, errors: &mut HashMap<String, Span>) {
-    let into_type_paths = data_type_attrs_by_kind.iter().filter_map(|(x, kind)|(!kind.is_from() && !kind.is_into_existing()).then_some(&x.ty)).collect::<HashSet<_>>();
-    let from_type_paths = data_type_attrs_by_kind.iter().filter_map(|(x, kind)|(x.update.is_none() && kind.is_from()).then_some(&x.ty)).collect::<HashSet<_>>();
+fn validate_fields(input: &Struct, data_type_attrs: &DataTypeAttrs, data_type_attrs_by_kind: &[(&TraitAttrCore, Kind)], type_paths: &HashSet<&TypePath>, errors: &mut Errors) {
+    let into_type_paths = unique_in_order(data_type_attrs_by_kind.iter().filter_map(|(x, kind)|(!kind.is_from() && !kind.is_into_existing()).then_some(&x.ty)));
+    let from_type_paths = unique_in_order(data_type_attrs_by_kind.iter().filter_map(|(x, kind)|(x.update.is_none() && kind.is_from()).then_some(&x.ty)));
 
     for field in &input.fields {
         for ghost_attr in field.attrs.ghost_attrs.iter() {
@@ -292,7 +320,7 @@ fn validate_fields(input: &Struct, data_type_attrs: &DataTypeAttrs, data_type_at
             }
             match &ghost_attr.attr.container_ty {
                 Some(tp) => {
-                    if from_type_paths.contains(tp) {
+                    if from_type_paths.contains(&tp) {
                         errors.insert(format!("Member instruction #[ghost(...)] for member '{}' should provide default value for type {}", field.member.to_token_stream(), tp.path_str), field.member.span());
                     }
                 },
@@ -318,7 +346,7 @@ fn validate_fields(input: &Struct, data_type_attrs: &DataTypeAttrs, data_type_at
                 if !type_paths.contains(tp) {
                     errors.insert(format!("Type '{}' doesn't match any type specified in trait instructions.", tp.path_str), tp.span);
                 }
-                if into_type_paths.contains(tp) {
+                if into_type_paths.contains(&tp) {
                     check_child_errors(child_attr, data_type_attrs, tp, errors)
                 }
             },
@@ -353,7 +381,7 @@ fn validate_fields(input: &Struct, data_type_attrs: &DataTypeAttrs, data_type_at
     }
 }
 
-fn validate_variant_fields(input: &Variant, data_type_attrs: &DataTypeAttrs, _type_paths: &HashSet<&TypePath>, errors: &mut HashMap<String, Span>) {
+fn validate_variant_fields(input: &Variant, data_type_attrs: &DataTypeAttrs, _type_paths: &HashSet<&TypePath>, errors: &mut Errors) {
     if !input.named_fields {
         let data_type_attrs: Vec<(&TraitAttr, Kind)> = data_type_attrs.iter_for_kind(&Kind::OwnedInto, false).map(|x| (x, Kind::OwnedInto))
             .chain(data_type_attrs.iter_for_kind(&Kind::RefInto, false).map(|x| (x, Kind::RefInto)))
@@ -393,7 +421,7 @@ fn validate_variant_fields(input: &Variant, data_type_attrs: &DataTypeAttrs, _ty
     }
 }
 
-fn check_child_errors(child_attr: &ChildAttr, struct_attrs: &DataTypeAttrs, tp: &TypePath, errors: &mut HashMap<String, Span>) {
+fn check_child_errors(child_attr: &ChildAttr, struct_attrs: &DataTypeAttrs, tp: &TypePath, errors: &mut Errors) {
     let children_attr = struct_attrs.child_parents_attr(tp);
     for (idx, _level) in child_attr.child_path.child_path.iter().enumerate() {
         let path = child_attr.get_child_path_str(Some(idx));
